@@ -978,6 +978,58 @@ func c11Counters(p *load.Program, run *report.Run) {
 				}
 			}
 			a := linOf(s.call.Call.Args[1])
+			if snd == nil && a.ok {
+				// the bytes are counted once, then either handed to the writer or written by this function
+				// itself: every path from the count to a `return nil` moves WriteBuf[0:a] one way or the other
+				moved := func(b *ssa.BasicBlock) bool {
+					for _, ins := range b.Instrs {
+						switch t := ins.(type) {
+						case *ssa.Send:
+							if sl, ok := t.X.(*ssa.Slice); ok && recvField(t.Chan) == "toWriter" && sl.High != nil && linOf(sl.High) == a {
+								return true
+							}
+						case ssa.CallInstruction:
+							if t.Common().IsInvoke() && t.Common().Method.Name() == "Write" && len(t.Common().Args) == 1 {
+								if sl, ok := t.Common().Args[0].(*ssa.Slice); ok && sl.High != nil && linOf(sl.High) == a {
+									return true
+								}
+							}
+						}
+					}
+					return false
+				}
+				okAll, any := true, false
+				seen := map[*ssa.BasicBlock]bool{}
+				var walk func(b *ssa.BasicBlock)
+				walk = func(b *ssa.BasicBlock) {
+					if seen[b] {
+						return
+					}
+					seen[b] = true
+					if b != s.call.Block() && moved(b) {
+						any = true
+						return
+					}
+					if ret, ok := b.Instrs[len(b.Instrs)-1].(*ssa.Return); ok {
+						if n := len(ret.Results); n > 0 {
+							if k, isConst := ret.Results[n-1].(*ssa.Const); isConst && k.IsNil() {
+								okAll = false
+							}
+						}
+						return
+					}
+					for _, nx := range b.Succs {
+						walk(nx)
+					}
+				}
+				for _, nx := range s.call.Block().Succs {
+					walk(nx)
+				}
+				if okAll && any {
+					run.OK("counter-pair", key, p.Rel(s.call.Pos()), "Add("+a.String()+"), then WriteBuf[0:"+a.String()+"] is handed to the writer or written directly on every path that succeeds")
+					continue
+				}
+			}
 			if snd == nil {
 				run.Violate("counter-pair", key, p.Rel(s.call.Pos()), "bytes are counted as sent on a path that does not hand them to the writer", nil)
 			} else if sl, ok := snd.X.(*ssa.Slice); !ok || sl.High == nil || linOf(sl.High) != a || !a.ok {
@@ -1025,7 +1077,7 @@ func c11Counters(p *load.Program, run *report.Run) {
 				if x, ok := ins.(*ssa.Send); ok && recvField(x.Chan) == "toWriter" {
 					has := false
 					for _, s := range sites {
-						if s.ctr == "Sent" && s.call.Block() == b {
+						if s.ctr == "Sent" && (s.call.Block() == b || s.call.Parent() == fn && s.call.Block().Dominates(b)) {
 							has = true
 						}
 					}
